@@ -103,7 +103,7 @@ fn synchronize_jobs(
         .filter_map(|(single, activity)| activity.retrieve_job().map(|job| (job, single)))
         .filter(|(job, _)| !assigned_jobs.contains(job))
         .fold(
-            (HashMap::default(), HashSet::<Job>::default()),
+            (HashMap::default(), get_invalid_multi_jobs(route_ctx)),
             |(mut synchronized_jobs, mut invalid_multi_job_ids), (job, single)| {
                 let is_already_processed = synchronized_jobs.contains_key(&job) && job.as_single().is_some();
                 let is_invalid_multi_job = invalid_multi_job_ids.contains(&job);
@@ -147,6 +147,30 @@ fn synchronize_jobs(
         );
 
     synchronized_jobs
+}
+
+/// Returns multi jobs which sub-jobs are not in the allowed order in the given route. They are not synchronized at
+/// all: sub-jobs in a wrong order (e.g. delivery before pickup) distort the route state used to check other jobs.
+fn get_invalid_multi_jobs(route_ctx: &RouteContext) -> HashSet<Job> {
+    let singles = route_ctx
+        .route()
+        .tour
+        .all_activities()
+        .filter_map(|activity| activity.job.as_ref().map(|single| (single, activity)))
+        .filter(|(single, activity)| is_activity_to_single_match(activity, single))
+        .filter_map(|(single, _)| Multi::roots(single).map(|multi| (multi, single)))
+        .fold(HashMap::<Job, Vec<Arc<Single>>>::default(), |mut acc, (multi, single)| {
+            acc.entry(Job::Multi(multi)).or_default().push(single.clone());
+            acc
+        });
+
+    singles
+        .into_iter()
+        .filter(|(job, singles)| {
+            job.as_multi().is_some_and(|multi| multi.jobs.len() != singles.len() || !compare_singles(multi, singles))
+        })
+        .map(|(job, _)| job)
+        .collect()
 }
 
 fn is_activity_to_single_match(activity: &Activity, single: &Single) -> bool {
